@@ -16,6 +16,7 @@ package harness
 
 import (
 	"bytes"
+	"crypto/sha256"
 	"encoding/hex"
 	"encoding/json"
 	"fmt"
@@ -36,6 +37,10 @@ import (
 	"github.com/cosmos/cosmos-sdk/client"
 	"github.com/cosmos/cosmos-sdk/codec"
 	"github.com/cosmos/cosmos-sdk/client/flags"
+	clienttx "github.com/cosmos/cosmos-sdk/client/tx"
+	"github.com/cosmos/cosmos-sdk/crypto/keys/secp256k1"
+	"github.com/cosmos/cosmos-sdk/types/tx/signing"
+	authsigning "github.com/cosmos/cosmos-sdk/x/auth/signing"
 	"github.com/cosmos/cosmos-sdk/server"
 	simtestutil "github.com/cosmos/cosmos-sdk/testutil/sims"
 	sdk "github.com/cosmos/cosmos-sdk/types"
@@ -71,7 +76,8 @@ type genChain struct {
 	now    time.Time
 	addrs  []sdk.AccAddress
 	hashes []string
-	valHash []byte
+	resps  []string // hash of each block's marshalled ResponseFinalizeBlock (tx results, events, app hash)
+	pendingSeq map[int]uint64
 }
 
 const genChainID = "pio-verif-gen-1"
@@ -125,12 +131,30 @@ func genGenesisBytes(t *testing.T, addrs []sdk.AccAddress) []byte {
 	return bz
 }
 
-func (c *genChain) beginBlock() {
+func (c *genChain) beginBlock(txs ...genTx) {
 	c.height++
 	c.now = c.now.Add(7 * time.Second)
-	if _, err := c.a.FinalizeBlock(&abci.RequestFinalizeBlock{Height: c.height, Time: c.now, Hash: c.a.LastCommitID().Hash}); err != nil {
+	c.pendingSeq = map[int]uint64{}
+	var raw [][]byte
+	for _, tx := range txs {
+		c.height-- // sign against the last committed state
+		bz, err := c.signTx(tx)
+		c.height++
+		if err == nil {
+			raw = append(raw, bz)
+		}
+	}
+	resp, err := c.a.FinalizeBlock(&abci.RequestFinalizeBlock{Height: c.height, Time: c.now, Hash: c.a.LastCommitID().Hash, Txs: raw})
+	if err != nil {
 		c.t.Fatalf("FinalizeBlock %d: %v", c.height, err)
 	}
+	bz, _ := resp.Marshal()
+	h := sha256.Sum256(bz)
+	codes := ""
+	for _, r := range resp.TxResults {
+		codes += fmt.Sprintf("%d/%d,", r.Code, r.GasUsed)
+	}
+	c.resps = append(c.resps, hex.EncodeToString(h[:8])+":"+codes)
 }
 
 func (c *genChain) ctx() sdk.Context {
@@ -161,8 +185,9 @@ func genUUID(r *RNG) uuid.UUID {
 
 // genPlan precomputes the whole history (a list of ops per block) from the seed so that the
 // same plan can be replayed on several apps.
-func genPlan(r *RNG, nBlocks int, addrs []sdk.AccAddress) ([][]genOp, []string) {
+func genPlan(r *RNG, nBlocks int, addrs []sdk.AccAddress) ([][]genOp, [][]genTx, []string) {
 	var plan [][]genOp
+	var txplan [][]genTx
 	var desc []string
 	pick := func() sdk.AccAddress { return addrs[r.Intn(len(addrs))] }
 	markers := []string{}
@@ -400,13 +425,61 @@ func genPlan(r *RNG, nBlocks int, addrs []sdk.AccAddress) ([][]genOp, []string) 
 			}
 		}
 		plan = append(plan, ops)
+		// signed transactions delivered through FinalizeBlock in this block
+		var txs []genTx
+		ntx := r.Intn(4)
+		for i := 0; i < ntx; i++ {
+			signer := r.Intn(len(addrs))
+			from := addrs[signer]
+			switch r.Intn(4) {
+			case 0, 1: // bank send (sometimes more than the balance: a failing tx pays the base fee only)
+				to := pick()
+				amt := int64(1 + r.Intn(1000))
+				if r.Chance(15) {
+					amt = 4_000_000_000_000_000
+				}
+				desc = append(desc, "tx-send")
+				txs = append(txs, genTx{signer: signer, gas: 400000, fee: sdk.NewCoins(sdk.NewInt64Coin("nhash", 2_000_000_000)),
+					msgs: func(c *genChain) []sdk.Msg {
+						return []sdk.Msg{&banktypes.MsgSend{FromAddress: from.String(), ToAddress: to.String(), Amount: sdk.NewCoins(sdk.NewInt64Coin("nhash", amt))}}
+					}})
+			case 2: // several custom assessed fees to distinct (possibly new) recipients in one tx
+				n := 2 + r.Intn(3)
+				var rcpts []string
+				for j := 0; j < n; j++ {
+					rcpts = append(rcpts, sdk.AccAddress([]byte(fmt.Sprintf("verif_fee_rcpt_%06d", r.Intn(1000000)))).String())
+				}
+				bips := fmt.Sprintf("%d", r.Intn(10001))
+				desc = append(desc, "tx-assess")
+				txs = append(txs, genTx{signer: signer, gas: 900000, fee: sdk.NewCoins(sdk.NewInt64Coin("nhash", 5_000_000_000)),
+					msgs: func(c *genChain) []sdk.Msg {
+						var ms []sdk.Msg
+						for j, rc := range rcpts {
+							m := msgfeestypes.NewMsgAssessCustomMsgFeeRequest(fmt.Sprintf("fee%d", j), sdk.NewInt64Coin("nhash", int64(1000*(j+1))), rc, from.String(), bips)
+							ms = append(ms, &m)
+						}
+						return ms
+					}})
+			case 3: // a send of a type that may carry a msg fee set earlier by a keeper op
+				to := pick()
+				desc = append(desc, "tx-send2")
+				txs = append(txs, genTx{signer: signer, gas: 500000, fee: sdk.NewCoins(sdk.NewInt64Coin("nhash", 3_000_000_000)),
+					msgs: func(c *genChain) []sdk.Msg {
+						return []sdk.Msg{
+							&banktypes.MsgSend{FromAddress: from.String(), ToAddress: to.String(), Amount: sdk.NewCoins(sdk.NewInt64Coin("usdx", 1))},
+							&banktypes.MsgSend{FromAddress: from.String(), ToAddress: to.String(), Amount: sdk.NewCoins(sdk.NewInt64Coin("apple", 1))},
+						}
+					}})
+			}
+		}
+		txplan = append(txplan, txs)
 	}
-	return plan, desc
+	return plan, txplan, desc
 }
 
 // runBlock applies one block's ops (each atomically) and commits. Returns "ok"/"err" per op.
-func (c *genChain) runBlock(ops []genOp) string {
-	c.beginBlock()
+func (c *genChain) runBlock(ops []genOp, txs []genTx) string {
+	c.beginBlock(txs...)
 	var res []string
 	for _, op := range ops {
 		err, pan := Try(c.ctx(), func(ctx sdk.Context) error { return op(c, ctx) })
@@ -423,12 +496,65 @@ func (c *genChain) runBlock(ops []genOp) string {
 	return strings.Join(res, "")
 }
 
+// genKeys: deterministic keys of the named accounts (they sign the plan's transactions).
+func genKeys() []*secp256k1.PrivKey {
+	var ks []*secp256k1.PrivKey
+	for i := 0; i < 6; i++ {
+		ks = append(ks, secp256k1.GenPrivKeyFromSecret([]byte(fmt.Sprintf("verif-gen-account-%02d", i))))
+	}
+	return ks
+}
+
 func genAddrs() []sdk.AccAddress {
 	var addrs []sdk.AccAddress
-	for i := 0; i < 6; i++ {
-		addrs = append(addrs, sdk.AccAddress([]byte(fmt.Sprintf("verif_gen_account_%02d", i))))
+	for _, k := range genKeys() {
+		addrs = append(addrs, sdk.AccAddress(k.PubKey().Address()))
 	}
 	return addrs
+}
+
+// genTx is one signed transaction of the plan: signer index, messages built from the chain's
+// current state, declared fee and gas.
+type genTx struct {
+	signer int
+	msgs   func(c *genChain) []sdk.Msg
+	fee    sdk.Coins
+	gas    uint64
+}
+
+// signTx signs with the account number / sequence currently in the chain's committed state.
+func (c *genChain) signTx(tx genTx) ([]byte, error) {
+	keys := genKeys()
+	priv := keys[tx.signer]
+	addr := sdk.AccAddress(priv.PubKey().Address())
+	ctx := c.a.BaseApp.NewContextLegacy(true, cmtproto.Header{ChainID: genChainID, Height: c.height})
+	acc := c.a.AccountKeeper.GetAccount(ctx, addr)
+	if acc == nil {
+		return nil, fmt.Errorf("no account")
+	}
+	cfg := c.a.GetTxConfig()
+	b := cfg.NewTxBuilder()
+	if err := b.SetMsgs(tx.msgs(c)...); err != nil {
+		return nil, err
+	}
+	b.SetFeeAmount(tx.fee)
+	b.SetGasLimit(tx.gas)
+	seq := acc.GetSequence() + c.pendingSeq[tx.signer]
+	mode := signing.SignMode(cfg.SignModeHandler().DefaultMode())
+	sig := signing.SignatureV2{PubKey: priv.PubKey(), Data: &signing.SingleSignatureData{SignMode: mode}, Sequence: seq}
+	if err := b.SetSignatures(sig); err != nil {
+		return nil, err
+	}
+	sd := authsigning.SignerData{Address: addr.String(), ChainID: genChainID, AccountNumber: acc.GetAccountNumber(), Sequence: seq, PubKey: priv.PubKey()}
+	sig, err := clienttx.SignWithPrivKey(ctx, mode, sd, b, priv, cfg, seq)
+	if err != nil {
+		return nil, err
+	}
+	if err := b.SetSignatures(sig); err != nil {
+		return nil, err
+	}
+	c.pendingSeq[tx.signer]++
+	return cfg.TxEncoder()(b.GetTx())
 }
 
 func genExportCustom(t *testing.T, a *app.App) (map[string]string, []byte, error) {
@@ -457,7 +583,7 @@ func genCase(t *testing.T, seed uint64, nBlocks int, out *Out) (string, string) 
 	addrs := genAddrs()
 	genesis := genGenesisBytes(t, addrs)
 	r := NewRNG(seed)
-	plan, desc := genPlan(r, nBlocks, addrs)
+	plan, txplan, desc := genPlan(r, nBlocks, addrs)
 	for _, d := range desc {
 		out.Count("genop:" + strings.SplitN(d, ":", 2)[0])
 	}
@@ -469,11 +595,23 @@ func genCase(t *testing.T, seed uint64, nBlocks int, out *Out) (string, string) 
 	c1 := newChain(dbm.NewMemDB(), t.TempDir())
 	c2 := newChain(dbm.NewMemDB(), t.TempDir())
 	var res1, res2 []string
-	for _, ops := range plan {
-		res1 = append(res1, c1.runBlock(ops))
+	for i, ops := range plan {
+		res1 = append(res1, c1.runBlock(ops, txplan[i]))
 	}
-	for _, ops := range plan {
-		res2 = append(res2, c2.runBlock(ops))
+	for i, ops := range plan {
+		res2 = append(res2, c2.runBlock(ops, txplan[i]))
+	}
+	for _, rr := range c1.resps {
+		for _, cg := range strings.Split(strings.SplitN(rr, ":", 2)[1], ",") {
+			if cg == "" {
+				continue
+			}
+			if strings.HasPrefix(cg, "0/") {
+				out.Counts["gentx:ok"]++
+			} else {
+				out.Counts["gentx:failed"]++
+			}
+		}
 	}
 	for _, rr := range res1 {
 		out.Counts["genres:ok"] += strings.Count(rr, "o")
@@ -484,6 +622,10 @@ func genCase(t *testing.T, seed uint64, nBlocks int, out *Out) (string, string) 
 	for i := range c1.hashes {
 		if c1.hashes[i] != c2.hashes[i] || res1[i] != res2[i] {
 			det = fmt.Sprintf("diff:block%d", i+1)
+			break
+		}
+		if c1.resps[i] != c2.resps[i] {
+			det = fmt.Sprintf("diff:block%d-results", i+1)
 			break
 		}
 	}
@@ -502,7 +644,7 @@ func genCase(t *testing.T, seed uint64, nBlocks int, out *Out) (string, string) 
 	stopAt := 1 + r.Intn(len(plan))
 	restart := "same"
 	for i, ops := range plan {
-		c3.runBlock(ops)
+		c3.runBlock(ops, txplan[i])
 		if i+1 == stopAt {
 			if err := db3.Close(); err != nil {
 				t.Fatal(err)
@@ -524,6 +666,10 @@ func genCase(t *testing.T, seed uint64, nBlocks int, out *Out) (string, string) 
 		for i := range c1.hashes {
 			if i >= len(c3.hashes) || c1.hashes[i] != c3.hashes[i] {
 				restart = fmt.Sprintf("diff:block%d", i+1)
+				break
+			}
+			if c1.resps[i] != c3.resps[i] {
+				restart = fmt.Sprintf("diff:block%d-results", i+1)
 				break
 			}
 		}
